@@ -84,6 +84,7 @@ class Run:
             if c.func not in cf.functions:
                 raise CheckerError("function %s not found in %s" % (c.func, c.file))
             n0 = len(self.sink.obls)
+            self.__dict__.setdefault("verified_contracts", []).append((cfs, c))
             ex.verify(c)
             if c.abstract_mul:
                 for ob in self.sink.obls[n0:]:
@@ -237,12 +238,55 @@ class Run:
             lines.append("UNDECIDED property=%s obligation=%s status=%s %s" % (self.pid, o.name, o.status, o.detail[:120]))
         for l in lines:
             print(l)
+        self.crosscheck = None
+        if self.tier == "thorough" and not violations:
+            self.crosscheck = self.cross_check()
         self.write_evidence(len(violations), known_hits)
         if violations:
             return 1
+        if self.crosscheck and self.crosscheck["failed"]:
+            for fdesc in self.crosscheck["failed"]:
+                print("CROSS-CHECK-FAILED %s: the real code disagrees with a contract whose obligations were all discharged: %s" % (self.pid, fdesc))
+            return 3
         if undecided:
             return 2
         return 0
+
+    def cross_check(self):
+        """thorough tier only: the contracts are additionally evaluated on executions of the REAL code (compiled C through
+        ctypes incl. an AddressSanitizer build, Python through the replay harnesses) although every obligation was discharged.
+        This guards the verifier itself (an unsound encoding would show up as a discharged contract the real code violates);
+        it is not counted as proof."""
+        from . import cfuzz
+        done, failed = [], []
+        for (cfs, c) in getattr(self, "verified_contracts", []):
+            if c.gen is None:
+                continue
+            try:
+                r = cfuzz.fuzz(cfs, c, trials=400, seed=self.seed, lib=c.lib)
+                a = cfuzz.asan_fuzz(cfs, c, trials=100, seed=self.seed)
+            except Exception as e:
+                done.append({"function": c.func + (c.tag or ""), "error": repr(e)[:200]})
+                continue
+            done.append({"function": c.func + (c.tag or ""), "executions": r.get("executions"), "clauses_violated": r.get("violated_clauses"),
+                         "sanitizer_executions": a.get("executions"), "sanitizer_report": bool(a.get("reproduced"))})
+            if r.get("reproduced"):
+                failed.append("%s violates %s" % (c.func, r.get("violated_clauses")))
+            if a.get("reproduced"):
+                failed.append("%s: %s" % (c.func, a.get("sanitizer", "")[:120]))
+        seen = set()
+        for o in self.sink.obls:
+            if o.replay is None or o.status != "discharged" or o.meta.get("finding_witness"):
+                continue
+            grp = o.name.rsplit(":", 2)[0]
+            if grp in seen or any(grp == "%s:%s%s" % (c.file, c.func, c.tag or "") for (_, c) in getattr(self, "verified_contracts", [])):
+                continue
+            seen.add(grp)
+            rp = self.replay(o)
+            done.append({"harness_of": grp, "reproduced": bool(rp.get("reproduced")), "note": str(rp.get("reason", ""))[:120]})
+            if rp.get("reproduced"):
+                failed.append("replay harness of %s reproduces a violation" % grp)
+        return {"runs": done, "failed": failed}
 
     def solve_all(self, obls):
         """Staged discharge.  Weakened queries (fewer hypotheses, products as an uninterpreted function) are
@@ -270,8 +314,9 @@ class Run:
         attempt(qf_first, 3.0, "+qf+umul", drop_quantified=True, abstract_mul=True)
         attempt([o for o in smt if o.meta.get("abstract_first")], 4.0, "+umul", abstract_mul=True)
         quant = [o for o in smt if _has_quantifier(o.goal) or any(_has_quantifier(h) for h in o.hyps)]
-        attempt(quant, 6.0, "+ematch", mbqi=False)                   # exact formula, instantiation by patterns only
-        attempt(quant, 6.0, "+ematch+umul", mbqi=False, abstract_mul=True)
+        eb = 8.0 if self.tier == "quick" else 30.0
+        attempt(quant, eb, "+ematch", mbqi=False)                    # exact formula, instantiation by patterns only
+        attempt(quant, 3 * eb, "+ematch+umul", mbqi=False, abstract_mul=True)
         backends.discharge(obls, self.budget)                       # exact, everything still open (all back ends)
         unk = [o for o in obls if o.status == "unknown" and o.backend == "smt" and o.expect == "valid"]
         for o in unk:
@@ -325,6 +370,7 @@ class Run:
                 "axioms": self.axioms, "assumed_contracts": self.assumed_contracts,
                 "abstracted_statements": self.abstracted, "bounded": self.bounded,
                 "not_decided": self.not_decided,
+                "real_code_cross_check": getattr(self, "crosscheck", None),
                 "vacuity_checks_inconclusive": [o.name for o in getattr(self, "inconclusive", [])],
                 "known_findings": [{"key": o.meta.get("finding"), "obligation": o.name} for o in known_hits],
                 "not_discharged": [{"obligation": o.name, "status": o.status, "detail": o.detail[:200]} for o in obls if o.status != "discharged"][:50],
